@@ -15,8 +15,6 @@ type persistentPriorityQueue[T any] struct {
 }
 
 func newPersistentPriorityQueue[T any](w *worker[T, iJob[T]], pq IPersistentPriorityQueue) PersistentPriorityQueue[T] {
-	w.queues.Register(pq)
-
 	return &persistentPriorityQueue[T]{
 		priorityQueue: newPriorityQueue(w, pq),
 	}
